@@ -20,6 +20,8 @@ b2u = z3.Function("bytes_uuid", BSeq, Int)
 utf8 = z3.Function("utf8", z3.StringSort(), BSeq)   # str.encode("utf-8")
 utf8inv = z3.Function("utf8inv", BSeq, z3.StringSort())
 utf8ok = z3.Function("utf8ok", BSeq, z3.BoolSort())  # the byte string is well-formed UTF-8
+tok_items = z3.Function("findall_items", Val, Val, z3.ArraySort(Int, Val))
+tok_len = z3.Function("findall_len", Val, Val, Int)
 oid = Val.oid
 is_VOpaque = Val.is_VOpaque
 
@@ -168,6 +170,12 @@ class IoModel:
                 raise Unsupported("int.from_bytes with symbolic signedness")
             # the length must be known up to a small concrete bound on this path
             return sv_int(self.from_bytes_le(eng, st, b, z3.is_true(sg)))
+        if name in ("findall", "re.findall"):
+            # re.findall(pattern, string): not modelled beyond "a list of strings determined by (pattern, string)"
+            pat, text = to_val(args[0]), to_val(args[1])
+            n = tok_len(pat, text)
+            st.define(n >= 0)
+            return SV("list", tok_items(pat, text), x=n)
         if name in ("uuid4", "uuid.uuid4"):
             return SV("uuid", fresh("uuid4", Int))       # some UUID (nothing is assumed about its value)
         if name in ("UUID", "uuid.UUID"):
